@@ -309,3 +309,41 @@ func init() {
 		}
 	}
 }
+
+func init() {
+	// C09/C11: a perpetual pool driven to saturation (recorded long custody close to what the amm pool holds), then pure
+	// collateral top-ups (leverage 0) and further opens of decreasing size: each must be refused or leave custody backed.
+	scenarios["c09-saturated-pool-topups"] = func(sc *Scn) {
+		w := sc.w
+		p := sc.std.Pools[2] // the deep oracle pool: 1,000,000 USDC : 200,000 ATOM
+		price := sc.std.Prices["ATOM"]
+		open := func(u *Acct, long bool, col string, amt int64, lev string) uint32 {
+			pos, tp := perptypes.Position_LONG, price.Mul(D("3"))
+			if !long {
+				pos, tp = perptypes.Position_SHORT, price.Mul(D("0.5"))
+			}
+			return sc.Tx("perp.open", u, J{"pool": p.Id, "long": long, "collateral": []string{col, itoa(uint64(amt))}, "leverage": lev},
+				&perptypes.MsgOpen{Creator: u.Addr.String(), Position: pos, Leverage: D(lev), TradingAsset: "uatom", Collateral: coin(col, math.NewInt(amt)), TakeProfitPrice: tp, StopLossPrice: D("0"), PoolId: p.Id})
+		}
+		open(w.Accts[1], false, "uusdc", 100_000_000_000, "2")
+		// longs at low leverage until the pool refuses them, in decreasing sizes
+		ui := 2
+		for _, a := range []int64{367_000_000_000, 100_000_000_000, 30_000_000_000} {
+			for k := 0; k < 4 && ui < len(w.Accts)-1; k++ {
+				if open(w.Accts[ui], true, "uusdc", a, "1.2") != 0 {
+					break
+				}
+				ui++
+			}
+		}
+		alice := w.Accts[0]
+		open(alice, true, "uusdc", 6_000_000_000, "2")
+		for _, a := range []int64{300_000_000_000, 100_000_000_000, 30_000_000_000, 10_000_000_000, 3_000_000_000, 300_000_000} {
+			open(alice, true, "uusdc", a, "0")
+			open(alice, true, "uatom", a/5, "0")
+		}
+		open(w.Accts[1], false, "uusdc", 50_000_000_000, "0")
+	}
+}
+
+func init() { scenarios["c11-saturated-pool-topups"] = scenarios["c09-saturated-pool-topups"] }
